@@ -186,7 +186,7 @@ func ZZ_L1() {
 		guard(func() { fake.deliver() })
 	}
 
-	budgetHit := mon.crashes > maxRestarts
+	budgetHit := mon.crashes-mon.internal > maxRestarts
 	// scenario: a user message sent after a graceful Poison call panicked, i.e. the
 	// panic happened while the process drained the batch behind the pill
 	drainCrash := false
